@@ -17,13 +17,14 @@ pub fn meta() -> Meta {
     Meta {
         id: "C07",
         level: "model_checking",
-        rule: "explicit-state search over pools of .skf files: level 0 = every ordered list of distinct samples (all subsets, all orders) built with the real build; each further level merges every ordered selection of 2..4 known files with disjoint sample sets through the real generic_modes::merge (the function `ska merge` calls); a file's state is its full content incl. hidden fields and states are de-duplicated, so the search closes when merged files are indistinguishable from built ones and keeps expanding otherwise (nested merges). Invariant in every state: table and name order equal the model's joint table and the real joint build of the same samples in that order. k in {7,31,33,63} x strand modes; n<=4 quick, n<=5 thorough. Refusals (different k incl. 31 vs 33, different strand mode, both orders) through the CLI: non-zero exit and no output file. Selected merge trees are re-executed through `ska merge`.".into(),
+        rule: "explicit-state search over pools of .skf files: level 0 = every ordered list of distinct samples (all subsets, all orders) built with the real build; each further level merges every ordered selection of 2..4 known files with disjoint sample sets through the real generic_modes::merge (the function `ska merge` calls); a file's state is its full content incl. hidden fields and states are de-duplicated, so the search closes when merged files are indistinguishable from built ones and keeps expanding otherwise (nested merges). Invariant in every state: table and name order equal the model's joint table and the real joint build of the same samples in that order. k in {7,31,33,63} x strand modes; n<=5 quick; thorough adds n=5 at both widths and n=6 with pairwise merges (chains and trees arise over the levels). Refusals (different k incl. 31 vs 33, different strand mode, both orders) through the CLI: non-zero exit and no output file. Selected merge trees are re-executed through `ska merge`.".into(),
         assumptions: vec!["sorted-row canonical form: merge treats rows independently".into()],
         exhaustive_when_uncapped: false,
     }
 }
 
 struct Cfg {
+    max_sel: usize,
     k: usize,
     rc: bool,
     n: usize,
@@ -102,7 +103,7 @@ fn explore_cfg(c: &Cfg, ctx: &Ctx, rep: &mut Report, idx: &mut u64, max_level: u
             if cur.len() >= 2 && cur.iter().any(|i| newest.contains(&all[*i])) {
                 selections.push(cur.clone());
             }
-            if cur.len() == 4 {
+            if cur.len() == c.max_sel {
                 continue;
             }
             for (i, h) in all.iter().enumerate() {
@@ -255,17 +256,17 @@ pub fn run(ctx: &Ctx, rep: &mut Report) {
     let thorough = ctx.tier.thorough();
     let mut idx = 0u64;
     let cfgs: Vec<(usize, bool, usize)> = if thorough {
-        vec![(7, true, 5), (7, false, 4), (31, true, 4), (33, true, 4), (63, true, 4), (33, false, 3)]
+        vec![(7, true, 5), (7, false, 4), (31, true, 5), (33, true, 5), (63, true, 4), (33, false, 3), (9, true, 6)]
     } else {
         vec![(7, true, 5), (31, true, 4), (33, true, 4), (63, false, 3)]
     };
     for (k, rc, n) in cfgs {
         let pool = samples::pool(k, ctx.seed);
         // sample choice: shared / SNP / truncated+unique / rc+ambiguity / palindrome
-        let pick = [0usize, 1, 2, 3, 5];
+        let pick = [0usize, 1, 2, 3, 5, 6];
         let pool: Vec<Vec<Vec<u8>>> = pick.iter().take(n).map(|i| pool[*i].clone()).collect();
         let paths: Vec<String> = (0..n).map(|i| scratch::write(&format!("c07_s{i}.fa"), &scratch::fasta(&pool[i]))).collect();
-        let c = Cfg { k, rc, n, pool, paths };
+        let c = Cfg { max_sel: if n >= 6 { 2 } else { 4 }, k, rc, n, pool, paths };
         explore_cfg(&c, ctx, rep, &mut idx, 3);
         if rep.capped {
             return;
